@@ -393,6 +393,7 @@ fn all_rules_log(spec: &Spec) -> bool {
 /// The reference model answering the classifier's questions about observed behaviour.
 struct RefOracle<'a> {
     c: &'a mut Compiled,
+    text: bool,
     input: &'a [char],
     byte2pos: std::collections::HashMap<usize, usize>,
 }
@@ -431,6 +432,46 @@ impl<'a> Oracle for RefOracle<'a> {
     fn pos_of_byte(&self, byte: usize) -> Option<usize> {
         self.byte2pos.get(&byte).copied()
     }
+    fn select_excluding(&mut self, set: usize, pos: usize, rule: u32, end: usize) -> Option<(u32, usize)> {
+        if set >= self.c.sets.len() || pos > self.input.len() {
+            return None;
+        }
+        let ri = self.c.sets[set].rules.iter().position(|r| r.id == rule)?;
+        let b = self.c.best_by_matcher_b_excluding(set, self.input, pos, Some((ri, end)));
+        b.map(|(len, _via, i)| (self.c.sets[set].rules[i].id, pos + len))
+    }
+    fn explains(&mut self, set: usize, pos: usize, ms: usize, cnt: u32, obs_rest: &[El], need_evidence: bool) -> bool {
+        if set >= self.c.sets.len() || pos > self.input.len() || ms > pos {
+            return false;
+        }
+        let cfg = vmodel::reflex::Config {
+            pos,
+            set,
+            match_start: ms,
+            done: false,
+            counter: cnt,
+            calls: 0,
+        };
+        let h = {
+            let mut rr = RefRun::new(&mut *self.c, self.input, self.text, 0, false);
+            rr.run_from(cfg, self.input.len() + 4)
+        };
+        if need_evidence {
+            // the hypothetical run must begin with a match of a rule of that rule set
+            let first_is_match = match h.meta.first() {
+                Some(m) => m.set == set && (h.items.is_empty() || h.item_ev_end[0] > 0),
+                None => false,
+            };
+            if !first_is_match {
+                return false;
+            }
+        }
+        let exp = exp_elements(&h);
+        exp.len() == obs_rest.len() && exp.iter().zip(obs_rest.iter()).all(|(e, o)| e.el == *o)
+    }
+    fn n_sets(&self) -> usize {
+        self.c.sets.len()
+    }
 }
 
 /// Reference history with resolution of legitimate ambiguity: returns the history that agrees
@@ -466,7 +507,7 @@ fn reference_for(
                 b += ch.len_utf8();
             }
             byte2pos.insert(b, input.len());
-            let mut orc = RefOracle { c: &mut *c, input, byte2pos };
+            let mut orc = RefOracle { c: &mut *c, text, input, byte2pos };
             first_divergence(obs_els, &exp, info, &mut orc)
         };
         let better = match (&best, &d) {
